@@ -51,6 +51,10 @@ CLAIMED = {
    text="Sequential contracts of the property register: objectImpl.SetProperty runs the service's validator exactly once before anything is stored (mid-body assertion at the store), stores only a value whose signature matches the declared one (assertion), emits a change event only after the store and exactly one for an accepted write carrying the property's id; a rejected write emits nothing; saveProperty stores exactly the named entry under the write lock; Property returns the stored value of the named entry under the read lock; guard and lock-state obligations on the property table; signalHandler.UpdateProperty counts the emitted event.",
    note="Linearizable-register reading under concurrent writers is NOT decided: validate / save / notify are not one critical section. stubObject.UpdateProperty (service-side updates) and the generated onPropertyChange decoders are not under contract. The validator and Value.Signature are abstract; ghost counters are assumed untouched by uncontracted callees.",
    technique="contract-based deductive verification with ghost validator/event counters and monitor invariant, SMT", ref="7 C14"),
+ "C03": dict(level="other",
+   text="Contracts on the reflection codec of type/encoding (qiEncoder.value/Encode, qiDecoder.value/sliceValue/mapValue/readValue/Decode) over the thin reflect model, against the same little-endian layout spec functions (le16/le32/le64, isle*, holdsStr) that the contracts of package basic, the message framing (C01) and the signature-driven readers (C02) are proved against. Proved for every value token and every stream: for each scalar kind of the grammar (bool, 8/16/32/64-bit signed and unsigned, int/uint as 64-bit, float32/64 widths, string) the encoder appends exactly the documented image of the value and the decoder consumes exactly that width and stores the number/string whose image it read; lists and maps start with their 32-bit count (the decoded list has exactly that length), elements / key-value pairs / struct fields go to the same codec in order (assertions at the recursive calls); nothing already written is rewritten; the Go-scalar fast paths of Encode/Decode write/read the same images; a failed field or element fails the whole decode (sticky failure, C08); counts are non-negative and allocation from a count is bounded by 4096 (C07).",
+   note="Level 'other': relative to the thin reflect model (trusted/reflect.spec) and to abstract custom codecs (BinaryEncoder/Decoder, CustomEncoder/Decoder of user and generated types are assumed append-only / sticky and not to change container lengths). Float images are checked for width only. 'The signature-driven reader returns the bytes unchanged' is C02's claim (same layout functions); agreement between the codecs is by both being proved against those functions, not by a three-way run. Signature.Type()/Reader() construction (meta/signature/type.go) is not under contract. Element-wise content of lists/maps is covered structurally (the i-th recursive call gets element i), not as a closed-form encoding function.",
+   technique="contract-based deductive verification over an assumed thin model of reflect against shared layout spec functions, SMT", ref="7 C03"),
  "C20": dict(level="other",
    text="Contracts on conversion.convertFrom / convertSlice / convertMap / convertStruct / AsInt64 / isUnsigned over a thin model of package reflect (values are opaque tokens; kind is a function of the token; length and scalar content are ghost state; rfrom is specification-only provenance). Proved for every pair of tokens and every content: a successful conversion leaves in a bool/string/integer destination exactly the source's value (integers as mathematical numbers: no truncation or wrap-around), refuses kinds outside {bool-bool, string-string, integer-integer, float-float, slice-slice, map-map, struct-struct}; a slice gets the source's length and element i is the conversion of the source's element i; the pair stored into a map is (conversion of key k, conversion of w[k]) (assertion at SetMapIndex); a struct field is converted from the first source field with the same lower-case name (assertions at the recursive call); pointers are followed on both sides; nothing outside the destination changes (quantified frame clauses proved through the recursion and all loops).",
    note="Level 'other': the proof is relative to the thin reflect model in trusted/reflect.spec (an assumed contract per reflect method, tokens as access paths, no aliasing between the two arguments, settability/nil panics and termination on cyclic types not modelled); 'converting back recovers the source' is not stated separately. KNOWN FINDINGS (deviations from the statement's strict reading that the pinned tests require or that a maintainer would not obviously accept to change): integers of different signedness or a wider source are accepted when the value fits; float64 is accepted into float32 (rounded). ConvertFrom/DecodeFrom/EncodeInto wrappers are not under contract.",
